@@ -37,6 +37,8 @@ pub enum Field {
     Num(i64),
     Text,
     Missing,
+    /// a string that looks like a number ("7"): not a numeric field — aggregates must skip it like any other text
+    NumText(i64),
 }
 
 #[derive(Clone, Debug, Serialize, Deserialize, PartialEq)]
@@ -77,6 +79,9 @@ fn mk_event(i: usize, ts: u64, e: &Ev) -> StreamEvent {
             data.insert("v".to_string(), Value::String("n/a".to_string()));
         }
         Field::Missing => {}
+        Field::NumText(v) => {
+            data.insert("v".to_string(), Value::String(v.to_string()));
+        }
     }
     let src = if e.wrong_source { "other" } else { "src" };
     let ty = if e.wrong_type { "Other" } else { "E" };
@@ -690,6 +695,8 @@ impl World for WindowWorld {
                 "probe.tumbling_window_rolled_over",
                 "probe.aggregate_skips_non_numeric",
                 "probe.batch_with_several_windows",
+                "probe.window_of_a_second_or_more",
+                "probe.text_field_that_looks_numeric",
             ],
             quick_runs: 1_500_000,
             thorough_runs: 40_000_000,
@@ -706,7 +713,13 @@ impl World for WindowWorld {
         let alpha = matches!(kind, Kind::AlphaSliding | Kind::AlphaTumbling | Kind::AlphaNoWindow);
         let ts_max = *rng.pick(&[6i64, 15, 40]);
         let field = |rng: &mut Rng| match rng.usize(8) {
-            0 => Field::Text,
+            0 => {
+                if rng.chance(1, 2) {
+                    Field::Text
+                } else {
+                    Field::NumText(rng.range(-3, 9))
+                }
+            }
             1 => Field::Missing,
             2 | 3 => Field::Num(rng.range(-3, 9)),
             _ => Field::Int(rng.range(-3, 9)),
@@ -749,6 +762,13 @@ impl World for WindowWorld {
             }
         }
         let tick_pattern = if alpha && rng.chance(1, 3) { vec![*rng.pick(&[0u8, 1]), *rng.pick(&[0u8, 1, 2]), 0] } else { vec![] };
+        // unit scale (swarm): the same history with windows of seconds or minutes instead of ms
+        let scale = *rng.pick(&[1i64, 1, 1, 1, 1, 7, 1000, 60_000]);
+        let duration_ms = duration_ms * scale as u64;
+        for e in events.iter_mut() {
+            e.ts *= scale;
+            e.clock_adv *= scale;
+        }
         WinTrace { hash_seed, kind, duration_ms, cap, max_windows, events, tick_pattern }
     }
 
@@ -766,6 +786,12 @@ impl World for WindowWorld {
         let distinct_windows: BTreeSet<i64> = t.events.iter().map(|e| e.ts.div_euclid(t.duration_ms as i64)).collect();
         obs.nontrivial = t.events.len() >= 3 && obs.faulty && (distinct_windows.len() >= 2 || t.events.len() > t.cap);
         obs.fp_str(&format!("{:?}|{}|{}|{}|{:?}|{:?}", t.kind, t.duration_ms, t.cap, t.max_windows, t.events, t.tick_pattern));
+        if t.duration_ms >= 1000 {
+            obs.count("probe.window_of_a_second_or_more");
+        }
+        if t.events.iter().any(|e| matches!(e.field, Field::NumText(_))) {
+            obs.count("probe.text_field_that_looks_numeric");
+        }
         match t.kind {
             Kind::Record => run_record(t, obs),
             Kind::Manager => run_manager(t, obs),
@@ -807,6 +833,18 @@ impl World for WindowWorld {
         }
         if t.hash_seed != 1 {
             out.push(WinTrace { hash_seed: 1, ..t.clone() });
+        }
+        // the whole history in a smaller unit
+        for k in [60_000i64, 1000, 7] {
+            if t.duration_ms as i64 % k == 0 && t.duration_ms as i64 / k >= 1 && t.events.iter().all(|e| e.ts % k == 0 && e.clock_adv % k == 0) {
+                let mut c = t.clone();
+                c.duration_ms /= k as u64;
+                for e in c.events.iter_mut() {
+                    e.ts /= k;
+                    e.clock_adv /= k;
+                }
+                out.insert(0, c);
+            }
         }
         out
     }
